@@ -3,7 +3,7 @@ sys.path.insert(0, '/verif/analysis')
 from facts import *
 from sym import *
 def main():
-    f = Facts(sorted(glob.glob("/verif/.cache/facts/*/memmap.json"), key=__import__('os').path.getmtime)[-1])
+    f = Facts(sorted(glob.glob(__import__("os").environ.get("DBG_FACTS","/verif/.cache/facts/*/memmap.json")), key=__import__('os').path.getmtime)[-1])
     pat = sys.argv[1]
     kinds = set(sys.argv[2].split(',')) if len(sys.argv) > 2 else None
     for b in f.find(pat):
